@@ -7,3 +7,5 @@ python3 tools/extract.py
 REPO=$(sed -n 's/^cfgrammar *= *{ *path *= *"\(.*\)\/cfgrammar".*/\1/p' harness/Cargo.toml)
 cp "${REPO:-/repo}/Cargo.lock" harness/Cargo.lock
 (cd harness && CARGO_NET_OFFLINE=true cargo build --release --offline)
+# the build with /repo's verification hooks compiled in (C02), in its own target directory
+(cd harness && CARGO_NET_OFFLINE=true RUSTFLAGS="--cfg grmtools_verif" CARGO_TARGET_DIR=target/hook cargo build --release --offline)
